@@ -22,6 +22,30 @@ from hypothesis import strategies as st
 
 
 # ---------------------------------------------------------------------------------------------- generation
+def _one_pulse(draw, k, active):
+    dest = draw(st.sampled_from(active))
+    others = [i for i in range(k) if i != dest]
+    props = []
+    budget = 0.9
+    for i in others:
+        if i in active and draw(st.booleans()):
+            f = draw(st.sampled_from([0.05, 0.1, 0.25, 0.4]))
+            f = min(f, budget)
+            budget -= f
+            props.append(f)
+        else:
+            props.append(0.0)
+    if not any(props):
+        j = others.index([i for i in active if i != dest][0])
+        props[j] = 0.2
+    return dict(dest=dest, props=props)
+
+
+def pulse_list(ev):
+    """the pulses of a pulse event in the order they are applied"""
+    return [dict(dest=ev['dest'], props=ev['props'])] + list(ev.get('then', []))
+
+
 @st.composite
 def program(draw, max_pops=5, max_steps=5, allow_ancient=True, allow_true_split=True, allow_growth=True, allow_mig=True,
             allow_remove=True, allow_pulse=True, allow_admix=True, favor_split=False):
@@ -84,22 +108,12 @@ def program(draw, max_pops=5, max_steps=5, allow_ancient=True, allow_true_split=
                 live = [live[i] for i in range(k) if props[i] == 0]
             live.append(dict(frozen=False))
         elif c == 'pulse':
-            dest = draw(st.sampled_from(active))
-            others = [i for i in range(k) if i != dest]
-            props = []
-            budget = 0.9
-            for i in others:
-                if i in active and draw(st.booleans()):
-                    f = draw(st.sampled_from([0.05, 0.1, 0.25, 0.4]))
-                    f = min(f, budget)
-                    budget -= f
-                    props.append(f)
-                else:
-                    props.append(0.0)
-            if not any(props):
-                j = others.index([i for i in active if i != dest][0])
-                props[j] = 0.2
-            ev = dict(op='pulse', dest=dest, props=props)
+            ev = dict(op='pulse', **_one_pulse(draw, k, active))
+            # further pulses applied straight after the first, with no integration in between (simultaneous pulses of the graph,
+            # applied in the order listed): they need not commute
+            nmore = draw(st.sampled_from([0, 0, 1, 1, 2]))
+            if nmore:
+                ev['then'] = [_one_pulse(draw, k, active) for _ in range(nmore)]
         elif c == 'remove':
             r = draw(st.sampled_from(active))
             ev = dict(op='remove', pop=r)
@@ -156,7 +170,7 @@ def program(draw, max_pops=5, max_steps=5, allow_ancient=True, allow_true_split=
 
 
 def features(prog):
-    f = dict(max_pops=1, true_split=False, ancient=0, mig=False, pulse=False, growth=False, admix=False, merge=False, remove=False, long_epoch=False, symmig=False)
+    f = dict(max_pops=1, true_split=False, ancient=0, mig=False, pulse=False, growth=False, admix=False, merge=False, remove=False, long_epoch=False, symmig=False, pulse_seq=False)
     k = 1
     for s in prog['steps']:
         ev = s['event']
@@ -167,6 +181,8 @@ def features(prog):
                 f['ancient'] += 1
             if ev['op'] == 'pulse':
                 f['pulse'] = True
+                if ev.get('then'):
+                    f['pulse_seq'] = True
             if ev['op'] == 'admix':
                 f['admix'] = True
                 f['merge'] = f['merge'] or ev['merge']
@@ -310,13 +326,14 @@ def run_native(prog, return_names=False, rescale=1.0, upto=None, swipe_at=None, 
                         frozen.pop(i)
                         last_nu.pop(i)
             elif ev['op'] == 'pulse':
-                d = ev['dest']
-                f = getattr(PhiManip, {2: ['phi_2D_admix_2_into_1', 'phi_2D_admix_1_into_2'],
-                                       3: ['phi_3D_admix_2_and_3_into_1', 'phi_3D_admix_1_and_3_into_2', 'phi_3D_admix_1_and_2_into_3'],
-                                       4: ['phi_4D_admix_into_1', 'phi_4D_admix_into_2', 'phi_4D_admix_into_3', 'phi_4D_admix_into_4'],
-                                       5: ['phi_5D_admix_into_1', 'phi_5D_admix_into_2', 'phi_5D_admix_into_3', 'phi_5D_admix_into_4',
-                                           'phi_5D_admix_into_5']}[k][d])
-                phi = f(*([phi] + list(ev['props']) + [xx] * k))
+                for pu in pulse_list(ev):
+                    d = pu['dest']
+                    f = getattr(PhiManip, {2: ['phi_2D_admix_2_into_1', 'phi_2D_admix_1_into_2'],
+                                           3: ['phi_3D_admix_2_and_3_into_1', 'phi_3D_admix_1_and_3_into_2', 'phi_3D_admix_1_and_2_into_3'],
+                                           4: ['phi_4D_admix_into_1', 'phi_4D_admix_into_2', 'phi_4D_admix_into_3', 'phi_4D_admix_into_4'],
+                                           5: ['phi_5D_admix_into_1', 'phi_5D_admix_into_2', 'phi_5D_admix_into_3', 'phi_5D_admix_into_4',
+                                               'phi_5D_admix_into_5']}[k][d])
+                    phi = f(*([phi] + list(pu['props']) + [xx] * k))
             elif ev['op'] == 'remove':
                 phi = PhiManip.remove_pop(phi, xx, ev['pop'] + 1)
                 names.pop(ev['pop'])
@@ -430,11 +447,12 @@ def to_demes(prog, time_units='generations', generation_time=None, scale=1.0, up
                     axes = [axes[i] for i in range(len(pr)) if pr[i] == 0]
                 axes.append(name)
             elif ev['op'] == 'pulse':
-                d = ev['dest']
-                others = [i for i in range(len(axes)) if i != d]
-                srcs = [axes[i] for i, f in zip(others, ev['props']) if f > 0]
-                prs = [f for f in ev['props'] if f > 0]
-                pulses.append(dict(sources=srcs, dest=axes[d], proportions=prs, time=t_now))
+                for pu in pulse_list(ev):       # same time, listed in the order they are applied
+                    d = pu['dest']
+                    others = [i for i in range(len(axes)) if i != d]
+                    srcs = [axes[i] for i, f in zip(others, pu['props']) if f > 0]
+                    prs = [f for f in pu['props'] if f > 0]
+                    pulses.append(dict(sources=srcs, dest=axes[d], proportions=prs, time=t_now))
             elif ev['op'] == 'remove':
                 axes.pop(ev['pop'])
         it = s['integrate']
